@@ -212,7 +212,10 @@ Inductive fin :=
 | FInit (ic : list cond)
 | FFoc (ic : list cond)
 | FSaveSlice (vs : list rec)
-| FSaveOmit (os : list col) (v : rec).   (* Omit(cols...).Save(&v) *)   (* Save(&[]Acct{...}): one INSERT ... ON CONFLICT UPDATE ALL, keys handed back *)
+| FSaveOmit (os : list col) (v : rec)    (* Omit(cols...).Save(&v) *)
+| FCreateU (ru : rule) (tgt : bool) (v : rec).
+    (* Create + OnConflict rule on a table whose e-mails starting with "u" are UNIQUE (second, partial
+       unique index of the harness table); tgt = OnConflict.Columns = [id] written explicitly *)   (* Save(&[]Acct{...}): one INSERT ... ON CONFLICT UPDATE ALL, keys handed back *)
 
 (* res_writes = number of INSERT/UPDATE statements sent to the driver (failed ones included) *)
 Record result := mk_result { res_ret : rec; res_ra : Z; res_err : bool; res_writes : Z; res_tbl : table }.
@@ -330,6 +333,33 @@ Definition save_omit (t : table) (now : Z) (os : list col) (v : rec) : result :=
     else let r := create_omit t now os true v2 in
          mk_result (res_ret r) (res_ra r) (res_err r) 2 (res_tbl r).
 
+(* ---- a second unique index: e-mails starting with "u" are unique ------------------------------------ *)
+Definition uemail (e : string) : bool := String.prefix "u" e.
+(* another row (key <> k) already holds the unique e-mail e *)
+Definition email_clash (t : table) (k : Z) (e : string) : bool :=
+  uemail e && existsb (fun r => negb (r_id r =? k) && String.eqb (r_email r) e) t.
+(* ON CONFLICT DO NOTHING without a conflict target tolerates a collision on ANY unique index *)
+Fixpoint untargeted_nothing (ru : rule) (tgt : bool) : bool :=
+  match ru with
+  | RNothing => negb tgt
+  | RWhere _ r => untargeted_nothing r tgt
+  | _ => false       (* DoUpdates needs a target; UpdateAll gets the key as target; TargetWhere comes with one *)
+  end.
+Definition create_u (t : table) (now : Z) (ru : rule) (tgt : bool) (v : rec) : result :=
+  let v1 := fill_times now v in
+  let k := if r_id v1 =? 0 then next_id t else r_id v1 in
+  match (if r_id v1 =? 0 then None else lookup t k) with
+  | None =>
+      if email_clash t k (r_email v1)
+      then if untargeted_nothing ru tgt then mk_result v1 0 false 1 t     (* swallowed *)
+           else mk_result v1 0 true 1 t                                  (* UNIQUE constraint failed: email *)
+      else create t now (Some ru) v
+  | Some old =>
+      if rule_fires ru old && email_clash t k (r_email (oc_apply now ru v1 old))
+      then mk_result v1 0 true 1 t
+      else create t now (Some ru) v
+  end.
+
 (* DB.Save on a slice: Create with OnConflict{UpdateAll} and gorm:update_track_time — per element the
    same row the struct fallback writes (updated_at := now, zero created_at := now); SQLite processes the
    VALUES rows in order (a zero key becomes max(key)+1 at that moment) and RETURNING hands every row's
@@ -348,6 +378,7 @@ Definition step (keep : bool) (t : table) (now : Z) (ch : list cel) (f : fin) : 
   | FSaveSlice vs => let run := save_slice_run t now vs in
                      mk_result (last (snd run) zero_rec) (Z.of_nat (length vs)) false 1 (fst run)
   | FSaveOmit os v => save_omit t now os v
+  | FCreateU ru tgt v => create_u t now ru tgt v
   end.
 
 (* the caller's slice after the call (FSaveSlice only) *)
